@@ -109,4 +109,176 @@ theorem amountWrap_exact (xs : List UInt64) (h : natSum xs < 2 ^ 64) :
     (amountWrap xs).toNat = natSum xs := by
   rw [amountWrap_toNat, Nat.mod_eq_of_lt h]
 
+/-! ## `natSum` algebra -/
+
+@[simp] theorem natSum_nil : natSum [] = 0 := rfl
+@[simp] theorem natSum_cons (x : UInt64) (xs : List UInt64) : natSum (x :: xs) = x.toNat + natSum xs := by
+  simp [natSum]
+theorem natSum_append (xs ys : List UInt64) : natSum (xs ++ ys) = natSum xs + natSum ys := by
+  simp [natSum, List.sum_append]
+theorem natSum_perm {xs ys : List UInt64} (h : xs.Perm ys) : natSum xs = natSum ys :=
+  (h.map UInt64.toNat).sum_nat
+theorem natSum_replicate (n : Nat) (x : UInt64) : natSum (List.replicate n x) = n * x.toNat := by
+  induction n with
+  | zero => simp
+  | succ n ih => rw [List.replicate_succ, natSum_cons, ih, Nat.succ_mul]; omega
+
+/-! ## the fee formula `(fees + 999) / 1000` -/
+
+/-- `⌈s / 1000⌉` as Go writes it. -/
+def ceilDiv1000 (s : Nat) : Nat := (s + 999) / 1000
+
+/-- It is the ceiling: the least `n` with `s ≤ 1000 n`. -/
+theorem ceilDiv1000_spec (s : Nat) : s ≤ 1000 * ceilDiv1000 s ∧ 1000 * ceilDiv1000 s < s + 1000 := by
+  unfold ceilDiv1000; omega
+theorem ceilDiv1000_least (s n : Nat) (h : s ≤ 1000 * n) : ceilDiv1000 s ≤ n := by
+  unfold ceilDiv1000; omega
+theorem ceilDiv1000_mono {a b : Nat} (h : a ≤ b) : ceilDiv1000 a ≤ ceilDiv1000 b := by
+  unfold ceilDiv1000; omega
+/-- `⌈a⌉ + ⌈b⌉ ≥ ⌈a + b⌉` … -/
+theorem ceilDiv1000_add_le (a b : Nat) : ceilDiv1000 (a + b) ≤ ceilDiv1000 a + ceilDiv1000 b := by
+  unfold ceilDiv1000; omega
+/-- … and by at most one. -/
+theorem ceilDiv1000_add_ge (a b : Nat) : ceilDiv1000 a + ceilDiv1000 b ≤ ceilDiv1000 (a + b) + 1 := by
+  unfold ceilDiv1000; omega
+
+/-- `feesOfPpks` for every input: both the accumulation and the `+ 999` wrap modulo 2^64. -/
+theorem feesOfPpks_toNat (l : List UInt64) :
+    (feesOfPpks l).toNat = ((natSum l % 2 ^ 64 + 999) % 2 ^ 64) / 1000 := by
+  unfold feesOfPpks
+  rw [UInt64.toNat_div, UInt64.toNat_add, amountWrap_toNat]
+  rfl
+
+/-- Without wrap-around it is `⌈Σ ppk / 1000⌉`. -/
+theorem feesOfPpks_exact (l : List UInt64) (h : natSum l + 999 < 2 ^ 64) :
+    (feesOfPpks l).toNat = ceilDiv1000 (natSum l) := by
+  rw [feesOfPpks_toNat, Nat.mod_eq_of_lt (by omega : natSum l < 2 ^ 64), Nat.mod_eq_of_lt h]
+  rfl
+
+/-! ## `AmountSplit` -/
+
+/-- The exponents `AmountSplit` emits (same recursion as `amountSplitAux`). -/
+def splitExps : Nat → Nat → Nat → List Nat
+  | 0, _, _ => []
+  | fuel + 1, pos, amount =>
+    if amount = 0 then []
+    else
+      let rest := splitExps fuel (pos + 1) (amount / 2)
+      if amount % 2 = 1 then pos :: rest else rest
+
+theorem amountSplitAux_eq_map (fuel pos n : Nat) :
+    amountSplitAux fuel pos n = (splitExps fuel pos n).map (2 ^ ·) := by
+  induction fuel generalizing pos n with
+  | zero => simp [amountSplitAux, splitExps]
+  | succ fuel ih =>
+    simp only [amountSplitAux, splitExps]
+    split
+    · simp
+    · split <;> simp [ih]
+
+theorem splitExps_bounds (fuel pos n : Nat) : ∀ e ∈ splitExps fuel pos n, pos ≤ e ∧ e < pos + fuel := by
+  induction fuel generalizing pos n with
+  | zero => simp [splitExps]
+  | succ fuel ih =>
+    intro e he
+    simp only [splitExps] at he
+    split at he
+    · simp at he
+    · split at he
+      · rcases List.mem_cons.1 he with h | h
+        · omega
+        · have := ih _ _ e h; omega
+      · have := ih _ _ e he; omega
+
+theorem splitExps_pairwise (fuel pos n : Nat) : (splitExps fuel pos n).Pairwise (· < ·) := by
+  induction fuel generalizing pos n with
+  | zero => simp [splitExps]
+  | succ fuel ih =>
+    simp only [splitExps]
+    split
+    · simp
+    · split
+      · refine List.pairwise_cons.2 ⟨?_, ih _ _⟩
+        intro e he
+        have := splitExps_bounds _ _ _ e he; omega
+      · exact ih _ _
+
+theorem splitExps_sum (fuel pos n : Nat) (h : n < 2 ^ fuel) :
+    ((splitExps fuel pos n).map (2 ^ ·)).sum = n * 2 ^ pos := by
+  induction fuel generalizing pos n with
+  | zero =>
+    have : n = 0 := by simpa using h
+    simp [splitExps, this]
+  | succ fuel ih =>
+    simp only [splitExps]
+    split
+    · rename_i h0; simp [h0]
+    · have hq : n / 2 < 2 ^ fuel := by rw [Nat.pow_succ] at h; omega
+      have ihq := ih (pos + 1) (n / 2) hq
+      rw [Nat.pow_succ] at ihq
+      split
+      · rename_i h1
+        simp only [List.map_cons, List.sum_cons, ihq]
+        have hn : n = 2 * (n / 2) + 1 := by omega
+        generalize n / 2 = q at hn ihq
+        subst hn
+        have e1 : q * (2 ^ pos * 2) = 2 * (q * 2 ^ pos) := by rw [Nat.mul_comm (2 ^ pos) 2, Nat.mul_left_comm]
+        have e2 : (2 * q + 1) * 2 ^ pos = 2 * (q * 2 ^ pos) + 2 ^ pos := by
+          rw [Nat.add_mul, Nat.mul_assoc, Nat.one_mul]
+        omega
+      · rename_i h1
+        rw [ihq]
+        have hn : n = 2 * (n / 2) := by omega
+        generalize n / 2 = q at hn
+        subst hn
+        have e1 : q * (2 ^ pos * 2) = 2 * (q * 2 ^ pos) := by rw [Nat.mul_comm (2 ^ pos) 2, Nat.mul_left_comm]
+        have e2 : (2 * q) * 2 ^ pos = 2 * (q * 2 ^ pos) := by rw [Nat.mul_assoc]
+        omega
+
+/-- The exponents of `amountSplit a`. -/
+def amountSplitExps (a : UInt64) : List Nat := splitExps 64 0 a.toNat
+
+theorem amountSplit_eq_map (a : UInt64) :
+    amountSplit a = (amountSplitExps a).map (fun e => UInt64.ofNat (2 ^ e)) := by
+  simp [amountSplit, amountSplitExps, amountSplitAux_eq_map, List.map_map, Function.comp_def]
+
+theorem amountSplitExps_lt (a : UInt64) : ∀ e ∈ amountSplitExps a, e < 64 := by
+  intro e he
+  have := splitExps_bounds 64 0 a.toNat e he; omega
+
+theorem amountSplitExps_pairwise (a : UInt64) : (amountSplitExps a).Pairwise (· < ·) :=
+  splitExps_pairwise _ _ _
+
+theorem toNat_ofNat_pow2 {e : Nat} (he : e < 64) : (UInt64.ofNat (2 ^ e)).toNat = 2 ^ e :=
+  UInt64.toNat_ofNat_of_lt' (Nat.pow_lt_pow_right (by decide) he)
+
+/-- Σ AmountSplit(a) = a, in ℕ (no entry and no partial sum wraps). -/
+theorem amountSplit_natSum (a : UInt64) : natSum (amountSplit a) = a.toNat := by
+  have hs := splitExps_sum 64 0 a.toNat a.toNat_lt
+  rw [amountSplit_eq_map, natSum, List.map_map]
+  have : (amountSplitExps a).map (UInt64.toNat ∘ fun e => UInt64.ofNat (2 ^ e)) = (amountSplitExps a).map (2 ^ ·) := by
+    apply List.map_congr_left
+    intro e he
+    exact toNat_ofNat_pow2 (amountSplitExps_lt a e he)
+  rw [this]
+  simpa [amountSplitExps] using hs
+
+theorem amountSplit_length (a : UInt64) : (amountSplit a).length = (amountSplitExps a).length := by
+  simp [amountSplit_eq_map]
+
+/-- Every entry of `amountSplit a` is at most `a` (so at most 2^64-1) and positive. -/
+theorem amountSplit_mem_pow2 (a : UInt64) : ∀ x ∈ amountSplit a, ∃ e, e < 64 ∧ x.toNat = 2 ^ e := by
+  intro x hx
+  rw [amountSplit_eq_map] at hx
+  obtain ⟨e, he, rfl⟩ := List.mem_map.1 hx
+  exact ⟨e, amountSplitExps_lt a e he, toNat_ofNat_pow2 (amountSplitExps_lt a e he)⟩
+
+/-- The entries ascend strictly (as `UInt64`). -/
+theorem amountSplit_pairwise_lt (a : UInt64) : (amountSplit a).Pairwise (· < ·) := by
+  rw [amountSplit_eq_map, List.pairwise_map]
+  refine (amountSplitExps_pairwise a).imp_of_mem ?_
+  intro e f he hf hlt
+  rw [UInt64.lt_iff_toNat_lt, toNat_ofNat_pow2 (amountSplitExps_lt a e he), toNat_ofNat_pow2 (amountSplitExps_lt a f hf)]
+  exact Nat.pow_lt_pow_right (by decide) hlt
+
 end Gonuts.Model
